@@ -112,11 +112,13 @@ def thm_exclusion(t0, t1, s, e):
     fs.exclude_files([name])
     by_name = list(fs.find(s, e, no_files_error=False))
     ensures(by_name == [], id="a file excluded by name is omitted")
-    # excluded by period (closed intervals): 2018-03-01 .. 2018-03-02
+    # excluded by period (closed intervals)
     fs2 = FileSet(path=path, name="verif2")
     fs2.file_system = GhostFS([name])
-    fs2.exclude_times([(datetime(2018, 3, 1), datetime(2018, 3, 2))])
-    in_period = t0 <= datetime(2018, 3, 2) and t1 >= datetime(2018, 3, 1)
+    # (two closed periods; the first is short enough for a file to start before and end after it, the second crosses midnight)
+    X = [(datetime(2018, 3, 1, 12), datetime(2018, 3, 1, 13)), (datetime(2018, 3, 1, 20), datetime(2018, 3, 2, 6))]
+    fs2.exclude_times(X)
+    in_period = (t0 <= X[0][1] and t1 >= X[0][0]) or (t0 <= X[1][1] and t1 >= X[1][0])
     got = list(fs2.find(s, e, no_files_error=False))
     ensures(len(got) == (1 if (hit and not in_period) else 0), id="a file whose coverage overlaps an excluded period is omitted, no other")
     # NoFilesError iff nothing is found and no_files_error is set
